@@ -9,12 +9,23 @@ import (
 	vestingtypes "github.com/cosmos/cosmos-sdk/x/auth/vesting/types"
 )
 
-// CheckIfAccountIsSuitableForDestroying checking the account is suitable for destroy (EVM) or not.
+// CheckIfAccountIsSuitableForDestroying checking the account is suitable for destroy (EVM) or not,
+// as of the wall-clock time. State machine code must use CheckIfAccountIsSuitableForDestroyingAt with the block time.
 //
 // It returns false and the reason if the account:
 //  1. Is a module account.
 //  2. Is a vesting account which still not expired.
 func CheckIfAccountIsSuitableForDestroying(account sdk.AccountI) (destroyable bool, reason string) {
+	return CheckIfAccountIsSuitableForDestroyingAt(account, time.Now().UTC())
+}
+
+// CheckIfAccountIsSuitableForDestroyingAt checking the account is suitable for destroy (EVM) or not,
+// as of the given time (the block time, so that every node and every re-execution decides the same).
+//
+// It returns false and the reason if the account:
+//  1. Is a module account.
+//  2. Is a vesting account which still not expired at the given time.
+func CheckIfAccountIsSuitableForDestroyingAt(account sdk.AccountI, blockTime time.Time) (destroyable bool, reason string) {
 	if account == nil || reflect.ValueOf(account).IsNil() {
 		panic("account is nil")
 	}
@@ -25,14 +36,14 @@ func CheckIfAccountIsSuitableForDestroying(account sdk.AccountI) (destroyable bo
 	}
 
 	if vestingAcc, ok := account.(*vestingtypes.BaseVestingAccount); ok {
-		if vestingAcc.GetEndTime() > time.Now().UTC().Unix() {
+		if vestingAcc.GetEndTime() > blockTime.Unix() {
 			reason = "unexpired vesting account is not suitable for destroying"
 			return
 		}
 	}
 
 	if vestingAcc, ok := account.(vesting.VestingAccount); ok {
-		if vestingAcc.GetEndTime() > time.Now().UTC().Unix() {
+		if vestingAcc.GetEndTime() > blockTime.Unix() {
 			reason = "unexpired vesting account is not suitable for destroying"
 			return
 		}
